@@ -334,7 +334,59 @@ def run_real(case, make_observable):
     return {"out": out, "esc": esc}
 
 
+def run_feedback(case, make_observable):
+    """RE-ENTRANT source: a Subject used as a feedback queue.  The input notifications are pushed in order, each exactly
+    once; whenever the consumer receives an element it pushes the next pending notification into the Subject from
+    inside its own on_next (so the operator's on_next handler is re-entered while it is still inside its downstream
+    call); whatever the consumer did not trigger is pushed from the top level.  -> untimed output."""
+    from reactivex.subject import Subject
+
+    src = Subject()
+    pending = []
+    for t, n in case["input"]:
+        pending.append(n)
+    out = []
+    depth = [0]
+
+    def push():
+        n = pending.pop(0)
+        depth[0] += 1
+        try:
+            if n[0] == "N":
+                src.on_next(_to_notification(n[1]) if case["name"] == "dematerialize" else dec(n[1]))
+            elif n[0] == "E":
+                src.on_error(InjectedError(n[1]))
+            else:
+                src.on_completed()
+        finally:
+            depth[0] -= 1
+
+    def on_next(v):
+        out.append(["N", _val(v)])
+        if pending and depth[0] < 40:
+            push()
+
+    try:
+        result = make_observable(src)
+    except Exception as e:
+        return {"ctor": err_name(e)}
+    esc = []
+    result.subscribe(on_next, lambda e: out.append(["E", err_name(e)]), lambda: out.append(["C"]))
+    while pending:
+        try:
+            push()
+        except Exception as e:  # escaped to the emitter
+            esc.append(err_name(e))
+    return {"fb": out, "esc": esc}
+
+
 def impl(case):
+    if case.get("mode") == "feedback":
+        try:
+            op = build_operator(case)
+        except Exception as e:
+            return {"ctor": err_name(e)}
+        return run_feedback(case, lambda xs: xs.pipe(op))
     try:
         op = build_operator(case)
     except Exception as e:  # constructor-time validation
@@ -343,7 +395,7 @@ def impl(case):
 
 
 def model_request(case):
-    return case
+    return None if case.get("mode") == "feedback" else case   # the atomic-handler model cannot express a re-entered handler
 
 
 # ----------------------------------------------------------------------------------------- oracle
@@ -552,7 +604,38 @@ def cut(timed):
     return out
 
 
+def expected_untimed(case):
+    ts, xs, end, tend = conforming(case["input"])
+    if py_ref(case, [], None) is None:
+        return {"ctor": AOOR}
+    return {"fb": py_ref(case, xs, end)}
+
+
+def cut_untimed(ns):
+    out = []
+    for n in ns:
+        out.append(n)
+        if n[0] in ("C", "E"):
+            break
+    return out
+
+
+def oracle_feedback(case, out):
+    exp = expected_untimed(case)
+    if "ctor" in exp or "ctor" in out:
+        return None if exp == out else f"constructor: expected {exp}, got {out}"
+    if cut_untimed(out["fb"]) != out["fb"]:
+        return f"subscriber saw notifications after a terminal: {out['fb']}"
+    if fw.key(out["fb"]) != fw.key(exp["fb"]):
+        return f"{case['name']} over a re-entrant (feedback) source: expected {exp['fb']}, got {out['fb']}"
+    if out["esc"]:
+        return f"exception escaped to the emitter: {out['esc']}"
+    return None
+
+
 def oracle(case, out):
+    if case.get("mode") == "feedback":
+        return oracle_feedback(case, out)
     exp = expected_timed(case)
     if "nonmonotone" in exp:
         return f"reference not prefix-monotone (harness bug): {exp}"
@@ -571,6 +654,8 @@ def oracle(case, out):
 def nontrivial(case, out):
     if "ctor" in out:
         return True
+    if case.get("mode") == "feedback":
+        return len(out["fb"]) > 1
     ts, xs, end, tend = conforming(case["input"])
     conf = [["N", x] for x in xs] + ([end] if end else [])
     return [n for t, n in out["out"]] != conf or len(conf) != len(case["input"])
@@ -586,6 +671,8 @@ def bucket(case, out):
         yield "nonconforming-input"
     if "ctor" in out:
         yield "ctor-raises"
+    elif "fb" in out:
+        yield "feedback:" + case["name"]
     else:
         if any(n[0] == "E" and n[1].startswith(("cb", "map", "key", "star")) for t, n in out["out"]):
             yield "callback-raised"
